@@ -6,14 +6,17 @@ n-1 times then a - must compile to the same bytes.  Loops are placed at top leve
 and without ':'), inside Sub{...}; bodies contain notes, rests, state commands, chords, tuplets, Sub blocks
 and comments.  (Loops are not put inside a tuplet: `{[2 c]}` and `{c c}` legitimately differ, the tuplet
 divides its length by the number of counted elements.)
-No model correspondence in this plugin yet: the instantiated core model is added by the RunCore property."""
+Unbalanced brackets: the simplest cases are theorems (a lone `]` / `:` is passed over, an unclosed `[n` runs what follows once)
+and are checked as byte equalities on the implementation; other unbalanced shapes are compared with the model (bytes and log)."""
 import json, os
 import vlib, mmlgen
 
 COQ_TARGET = "props/C05.v"
 THEOREMS = ["C05_flat_vs_structured", "C05_fuel_bound", "C05_fuel_mono", "C05_all_counts_pos", "C05_segment",
             "C05_count_zero_runs_once", "C05_halted_fixed", "C05_exec_app", "C05_flatten_app", "C05_repeat",
-            "C05_repeat_text", "C05_break", "C05_break_text"]
+            "C05_repeat_text", "C05_break", "C05_break_text",
+            "C05_parse_sound", "C05_parse_complete", "C05_balanced_iff", "C05_run_parsed", "C05_run_parsed_pos", "C05_exec_lexed",
+            "C05_repeat_tokens", "C05_break_tokens", "C05_lone_end", "C05_lone_break", "C05_unclosed_begin"]
 DRIVERS = ["core"]
 RULE = ("programs = pre [n body] post with n in 1..6 or omitted (=2), bodies of 1..4 items from the core-language generator "
         "(notes with flags, rests, n-notes, l/o/v/q/t and relative state commands, chords, tuplets, Sub blocks, comments, all "
@@ -218,6 +221,29 @@ def run(ctx):
         pairs.append((pre + "[%d %s : %s ] c" % (k, a, b), pre + " ".join([a + " " + b] * (k - 1) + [a]) + "  c", "[n a : b], large n", True))
         pairs.append((pre + "[2 [%d %s : %s ] e ] c" % (k, a, b), pre + " ".join([" ".join([a + " " + b] * (k - 1) + [a]) + " e"] * 2) + "  c", "nested, large n", True))
     compare(ctx, pairs, "large-count")
+    # unbalanced brackets, the simplest cases (theorems C05_lone_end / C05_lone_break / C05_unclosed_begin): a `]` or a `:`
+    # outside any loop is passed over, a `[n` that is never closed runs what follows once
+    pairs = []
+    for _ in range(n // 8):
+        a = leaf(rng, 1, rng.randrange(1, 4))
+        b = leaf(rng, 1, rng.randrange(1, 4))
+        pairs.append((a + " ] " + b + " c", a + "  " + b + " c", "a lone ']'", True))
+        pairs.append((a + " : " + b + " c", a + "  " + b + " c", "a lone ':'", True))
+        pairs.append((a + " [%d %s c" % (rng.randrange(1, 7), b), a + "  " + b + " c", "an unclosed '['", True))
+        pairs.append(("Sub{ " + a + " ] " + b + " } c", "Sub{ " + a + "  " + b + " } c", "a lone ']' inside Sub", True))
+    compare(ctx, pairs, "unbalanced")
+    # ... and implementation = model (bytes and log) on unbalanced texts of other shapes, where no law is claimed
+    srcs = ["c ] d", "[2 c", "[5 c d", ": c", "c : d", "c ] ] d e", "[3 c : d", "c ] [2 d] e", "[2 c ] ] d", "[2 c : d : e]", "[2 c ] : d",
+            "Sub{c ] d} e", "{c ] d}4", "[0 c] d", "[2 [3 c ] d", "] c", "[", "]", ":", "[2 c : ] d", "[2 : c] d", "c [2 d : e f",
+            "[2 c : d ] : e ] f", "[3 [2 c : d", "[2 c Sub{ d ] e } f ]", "[2 c Sub{ [3 d } e ]"]
+    got = ctx.impl(["compile_lex\t%s" % vlib.enc_text(s) for s in srcs], stall=20)
+    mod = ctx.model(["compile_core\t%s" % vlib.enc_text(s) for s in srcs])
+    for s, g, m in zip(srcs, got, mod):
+        ctx.count("unbalanced-correspondence", s)
+        if m.startswith("UNSUPPORTED") or m.startswith("OUTOFFUEL"):
+            ctx.unsupported += 1
+        elif g != m:
+            ctx.disagree("compile (lex/exec/generate) on unbalanced loop brackets", s, g[:300], m[:300])
 
 
 def replay(ctx, obj):
